@@ -32,7 +32,8 @@ Str2(in, i, end) ==
        IF end - i + 1 - 2 < n THEN [ok |-> FALSE, n |-> 0, segs |-> <<>>]
        ELSE [ok |-> TRUE, n |-> 2 + n, segs |-> Norm(Slice(in, i + 1, n))]
 
-PutPair(ps, k, v) == Append(SelectSeq(ps, LAMBDA p : p[1] # k), <<k, v>>)
+PutPair(ps, k, v) == Append(SelectSeq(ps, LAMBDA p : ~SegsEq(p[1], k)), <<k, v>>)
+PutIntPair(ps, k, v) == Append(SelectSeq(ps, LAMBDA p : p[1] # k), <<k, v>>)
 
 RECURSIVE StrKVs(_, _, _, _, _), IntKVs(_, _, _, _, _), Sections(_, _, _, _, _)
 \* cnt string pairs starting at i : [ok, i, ps]
@@ -48,7 +49,7 @@ IntKVs(in, i, end, cnt, ps) ==
   ELSE IF end - i + 1 < 2 THEN [ok |-> FALSE, i |-> i, ps |-> ps]
   ELSE LET v == Str2(in, i + 2, end) IN
        IF ~v.ok THEN [ok |-> FALSE, i |-> i, ps |-> ps]
-       ELSE IntKVs(in, i + 2 + v.n, end, cnt - 1, PutPair(ps, U16(in, i), v.segs))
+       ELSE IntKVs(in, i + 2 + v.n, end, cnt - 1, PutIntPair(ps, U16(in, i), v.segs))
 
 \* the section loop: [ok, int, str]
 Sections(in, i, end, ints, strs) ==
@@ -102,16 +103,17 @@ RECURSIVE SumStr(_), SumInt(_)
 SumStr(ps) == IF ps = <<>> THEN 0 ELSE 4 + SegsLen(Head(ps)[1]) + SegsLen(Head(ps)[2]) + SumStr(Tail(ps))
 SumInt(ps) == IF ps = <<>> THEN 0 ELSE 4 + SegsLen(Head(ps)[2]) + SumInt(Tail(ps))
 InfoSize(p) ==
-  LET acl    == SelectSeq(p.str, LAMBDA q : q[1] = GDPRKey)
-      others == SelectSeq(p.str, LAMBDA q : q[1] # GDPRKey)
+  LET acl    == SelectSeq(p.str, LAMBDA q : SegsEq(q[1], GDPRKey))
+      others == SelectSeq(p.str, LAMBDA q : ~SegsEq(q[1], GDPRKey))
       raw == 2 + (IF acl = <<>> THEN 0 ELSE 3 + SegsLen(acl[1][2]))
                + (IF others = <<>> THEN 0 ELSE 3 + SumStr(others))
                + (IF p.int = <<>> THEN 0 ELSE 3 + SumInt(p.int))
   IN raw + ((4 - (raw % 4)) % 4)
 
-AsSet(ps) == {ps[k] : k \in DOMAIN ps}
+IntPairIn(p, ps) == \E x \in DOMAIN ps : p[1] = ps[x][1] /\ SegsEq(p[2], ps[x][2])
+SameIntPairs(a, b) == Len(a) = Len(b) /\ (\A x \in DOMAIN a : IntPairIn(a[x], b)) /\ (\A x \in DOMAIN b : IntPairIn(b[x], a))
 SameParam(a, b) == /\ a.flags = b.flags /\ a.seq = b.seq /\ a.proto = b.proto
-                   /\ AsSet(a.int) = AsSet(b.int) /\ AsSet(a.str) = AsSet(b.str)
+                   /\ SameIntPairs(a.int, b.int) /\ SamePairs(a.str, b.str)
 NormPairs(ps, intkeys) == [k \in DOMAIN ps |-> <<IF intkeys THEN ps[k][1] ELSE Norm(ps[k][1]), Norm(ps[k][2])>>]
 NormParam(p) == [p EXCEPT !.int = NormPairs(p.int, TRUE), !.str = NormPairs(p.str, FALSE)]
 =============================================================================
